@@ -435,7 +435,7 @@ def load_corpus():
 def run(ctx):
     W = world()
     cases = load_corpus()
-    n = ctx.n(220, 3000)
+    n = ctx.n(220, 2000)
     for i in range(n):
         cases.append(gen_case(W, ctx.rng, ctx.rng.choice([0, 1, 1, 2] if ctx.quick else [0, 1, 2, 2, 3]), force_se=(i % 8 == 7)))
     reals = [run_real(W, c) for c in cases]
